@@ -25,9 +25,9 @@ type Call struct {
 	ID     int  // frame id of the written frame (W)
 	Sum    uint64
 	Err    bool
-	Thresh uint16     // S
-	Bg     [][]uint16 // S: copy of the background passed (nil if nil)
-	Ev     int        // index of the event during which the call was made
+	Thresh uint16              // S
+	Bg     [][]uint16          // S: copy of the background passed (nil if nil)
+	Ev     int                 // index of the event during which the call was made
 	St     cptvframe.Telemetry // W: telemetry of the frame as the sink saw it
 }
 
@@ -47,13 +47,14 @@ type Event struct {
 	FFC      bool // frame lies in an FFC period (TimeOn-LastFFCTime < 10 s)
 
 	// observations
-	Motion   bool
-	Started  bool
-	Ended    bool
-	ErrKind  byte // 0 none, 'b' *lepton3.BadFrameErr, 'e' other error
-	Panic    string
-	Calls    [3][]Call
-	Thresh   uint16 // detector threshold after the event (in-package observation)
+	Motion    bool
+	Started   bool
+	Ended     bool
+	ErrKind   byte // 0 none, 'b' *lepton3.BadFrameErr, 'e' other error
+	Panic     string
+	Calls     [3][]Call
+	Thresh    uint16 // detector threshold after the event (in-package observation)
+	Throttled int    // 'throttled' events emitted during this event (world A+B)
 }
 
 // Trace is the observed history of one execution.
@@ -157,13 +158,13 @@ func (s *Sink) StopRecording() error {
 // Rec is one recording as seen by a sink: a successful start, the writes that
 // followed and the stop (if any).
 type Rec struct {
-	StartEv  int
-	StopEv   int // -1 while open
-	IDs      []int
-	EvOfW    []int
-	Thresh   uint16
-	Bg       [][]uint16
-	StopErr  bool
+	StartEv int
+	StopEv  int // -1 while open
+	IDs     []int
+	EvOfW   []int
+	Thresh  uint16
+	Bg      [][]uint16
+	StopErr bool
 }
 
 // Protocol parses the call sequence of one sink into recordings and reports the
